@@ -254,12 +254,14 @@ static Den denote_create(const char *desc, bool direct_values = false)
 				if (havestep && d.c != 0) { d.cls = Den::UNSURE; d.why = "equal-bounds"; return d; }
 				d.why = "equal-bounds"; d.have_n = true; d.nlo = d.nhi = 1; d.comparable = true; d.c = 0;
 			}
+			else if (havestep && d.c <= 0 && span > 0) return mal(fam, "nonpositive-step");   // a zero or negative step denotes no finite sequence
 			else if (span < 0 || d.c <= 0 || d.c > span) { d.cls = Den::UNSURE; d.why = "step-outside-span"; return d; }
 			else {
 				long double q = span / d.c;
 				d.have_n = true; d.nlo = d.nhi = floorl(q * (1 + 8 * (long double) DBL_EPSILON)) + 1;   // the end point belongs to the range when (b-a)/step is integral within rounding
 				d.comparable = true;
 				d.plain = q <= 1000 && fabsl(d.a) < 1e6 && fabsl(d.b) < 1e6 && span > 1e-6;
+				if (span < 1e-300) d.why = "tiny-span";
 			}
 		}
 		r.ws();
@@ -306,7 +308,7 @@ struct Spec {
 	Spec() : fam(F_CREATE), null_text(false), null_sep(true), null_arr(false), untyped(false), dblbuf(false), len(0), a(0), b(0), c(0), probe(false), step(1), rtype('d'), argkind(0) {}
 	std::string label() const
 	{
-		auto q = [](const std::string &s, bool null) { return null ? std::string("NULL") : "\"" + s + "\""; };
+		auto q = [](const std::string &s, bool null) { return null ? std::string("NULL") : "\"" + (s.size() > 90 ? s.substr(0, 40) + fmt(" ...(%zu characters)... ", s.size()) + s.substr(s.size() - 30) : s) + "\""; };
 		auto g = [&]() { std::string s = "["; for (size_t i = 0; i < grid.size(); ++i) s += (i ? "," : "") + fmt("%g", grid[i]); return s + "]"; };
 		switch (fam) {
 		case F_CREATE: return "mpt_iterator_create(" + q(text, null_text) + ")";
@@ -576,7 +578,6 @@ struct Src {
 			if (c == 0) { ++C.clone_unsupported; return false; }
 			if (c < 0) { viol("clone|" + fam + "|" + where + "|no-iterator", hist, "the clone does not offer the iterator interface"); return false; }
 			m.ctx = 2; m.armed = false;
-			if (sp.fam == F_TEXT) m.base = m.p;   // a text clone is a new iterator over the remaining text: its reset returns to the cloning point
 			return true;
 		}
 		// consume
@@ -854,7 +855,8 @@ static void fam_range(Tier, std::vector<Spec> &v)
 		v.push_back(mk_create("range( " + A + " " + B + " )"));
 		for (const char *s : steps) { v.push_back(mk_create("range(" + A + " " + B + ":" + s + ")")); v.push_back(mk_create("Range(" + A + " " + B + " : " + s + ")")); }
 	}
-	for (const char *d : { "range(0 3:1)", "range(0 0.3:0.1)", "range(0 0.7:0.1)", "range(1 2:0.2)", "range(-1 1:0.4)", "range(0 1e-7)", "range(2 5)", "range(0 1000:1)", "range(0.5 0.5)", "range(-1 -1:0)" }) v.push_back(mk_create(d));
+	for (const char *d : { "range(0 3:1)", "range(0 0.3:0.1)", "range(0 0.7:0.1)", "range(1 2:0.2)", "range(-1 1:0.4)", "range(0 1e-7)", "range(2 5)", "range(0 1000:1)", "range(0.5 0.5)", "range(-1 -1:0)",
+	                      "range(0 1e-320:0)", "range(0 1e-320)", "range(0 1e-323)", "range(0 4e-324)", "range(-4e-324 4e-324)", "range(0 1e-310:1e-311)", "range(0 1e-320:-1e-321)" }) v.push_back(mk_create(d));
 }
 static void fam_values(Tier t, std::vector<Spec> &v)
 {
@@ -971,6 +973,21 @@ static void fam_profile(Tier t, int gi, std::vector<Spec> &v)
 		for (size_t i = 0; i + 1 < cl.size() && i < sh.size(); ++i) d.sh[i] = strtod(sh[i].c_str(), 0);
 		for (double x : g) d.grid.push_back(x);
 		d.have_n = true; d.nlo = d.nhi = L; d.comparable = true; d.plain = true;
+		v.push_back(s);
+	}
+	// coefficient lists around the parser's internal capacity: every coefficient counts (its power is counted from the end)
+	if (gi == 4 || gi == 2) for (int nc : { 127, 128, 129, 130, 200 }) for (int variant = 0; variant < 3; ++variant) {
+		std::string text = "poly";
+		Spec s = mk_profile(g, "");
+		Den &d = s.den;
+		for (int i = 0; i < nc; ++i) { double cf = i + 3 >= nc ? 1 : 0; text += cf ? " 1" : " 0"; d.co.push_back(cf); }
+		d.sh.assign(nc, 0);
+		if (variant == 1) { text += " : 1"; d.sh[0] = 1; }
+		s.text = text;
+		if (variant == 2) { s.text += " no number"; s.den = mal("poly", fmt("trailing-text,%s", nc >= 128 ? "long-list" : "list")); v.push_back(s); continue; }
+		d.cls = Den::WELL; d.kind = Den::POLY; d.fam = "poly"; d.why = nc > 128 ? "long-list" : "profile";
+		for (double x : g) d.grid.push_back(x);
+		d.have_n = true; d.nlo = d.nhi = L; d.comparable = true; d.plain = nc <= 128;
 		v.push_back(s);
 	}
 	// odd / malformed profile descriptions: refusal or lenient acceptance, protocol oracle only
@@ -1156,11 +1173,11 @@ static void fam_cxx(Tier, std::vector<Spec> &v)
 // ---- array fillers mpt_values_linear / mpt_values_bound (same formulas without iterator); stateless DFS
 static void fill_body(Run &r, Ctx &x)
 {
-	static const double nn[] = { 0, 1, -1, 0.5, 1e308, 180 };
+	static const double nn[] = { 0, 1, -1, 0.5, 1e308, 180, -1e308, 1.7e308, -1.7e308 };
 	int which = (int) x.choose(2);
 	long points = (long) x.choose(6);          // 0..5
 	long ld = 1 + (long) x.choose(2);
-	double a = nn[x.choose(6)], b = nn[x.choose(6)], c = which ? nn[x.choose(4)] : 0;
+	double a = nn[x.choose(9)], b = nn[x.choose(9)], c = which ? nn[x.choose(4)] : 0;
 	size_t cells = points > 0 ? (size_t) ((points - 1) * ld + 1) : 0;
 	double *t = (double *) malloc(cells * sizeof(double) + (cells ? 0 : 1));
 	for (size_t i = 0; i < cells; ++i) t[i] = bitsd(SENT_D);
@@ -1172,12 +1189,10 @@ static void fill_body(Run &r, Ctx &x)
 	++r.transitions; ++r.states;
 	if (asan_error()) r.violation(std::string(fam) + "|" + (points < 2 ? "points<2" : "points>=2") + "|memory", what + ": writes outside the target (AddressSanitizer)");
 	else if (points >= 2) {
-		bool finite = std::isfinite(b - a);
 		for (long i = 0; i < points; ++i) {
 			double got = t[i * ld];
 			long double want = which ? (i == 0 ? a : (i == points - 1 ? b : c)) : (long double) a + (long double) i * ((long double) b - a) / (points - 1);
-			long double tol = which ? 0 : 4 * (long double) DBL_EPSILON * std::max(fabs(a), fabs(b));
-			if (!which && !finite) { ++C.nonfinite_skip; break; }
+			long double tol = which ? 0 : 4 * (long double) DBL_EPSILON * std::max(fabs(a), fabs(b));   // bounds are finite: the closed form is too, even when b - a overflows
 			if (dbits(got) == SENT_D || fabsl(got - want) > tol) { r.violation(std::string(fam) + "|points>=2|value", what + fmt(": element %ld is %.17g, closed form %.17Lg", i, got, want)); break; }
 		}
 		for (size_t i = 0; i < cells; ++i) if (i % ld && dbits(t[i]) != SENT_D) { r.violation(std::string(fam) + "|points>=2|stride", what + fmt(": cell %zu between the strided elements was written", i)); break; }
